@@ -131,15 +131,20 @@ class wrapper(dictattr):
             kw = function._kwargs
             kw.update(kwargs)
             function = function.function
+            if isinstance(function, wrapper):
+                function = copy(function)
         else:
             kw = kwargs
         f = function
         while isinstance(f, wrapper):
+            ## f is a copy made here: the chain of wrappers is rebuilt, the function we were given and the wrappers inside it are not edited
             if type(f.function) == type(self):
                 kw = f.function._kwargs
                 kw.update(kwargs)
                 f[_function] = f.function.function
             else:
+                if isinstance(f.function, wrapper):
+                    f[_function] = copy(f.function)
                 f = f.function
 
         super(wrapper, self).__init__(*args, **kw)
